@@ -670,8 +670,8 @@ class WkScenario:
         self.L.append("wk_precompute %d 0 %s" % (p, self.spec(attrs))); self.nR += 1; return self.nR - 1
     def adjustpre(self, rr, p, fr, to):
         self.L.append("wk_adjustpre %d %d 0 %s 0 %s" % (rr, p, self.spec(fr), self.spec(to))); self.nR += 1; return self.nR - 1
-    def resample(self, p, rr, k, further):
-        self.L.append("wk_resample %d %d %d %d %s" % (p, rr, k, 1 if further else 0, self.stream(400))); self.nK += 1; return self.nK - 1
+    def resample(self, p, rr, k, further, inplace=False):
+        self.L.append("wk_resample %d %d %d %d %s" % (p, rr, k, (1 if further else 0) + (2 if inplace else 0), self.stream(400))); self.nK += 1; return self.nK - 1
     def encrypt(self, p, attrs, pre=None):
         m = self.rng.randrange(1, R)
         if pre is None: self.L.append("wk_encrypt %d 0 %s %s %s" % (p, self.spec(attrs), hx(m, 256), self.stream(400)))
@@ -831,6 +831,12 @@ def gen_wkdibe(rng, n, tier):
         rr = S.pre(p0, fixed)
         for further in (True, False):
             kr = S.resample(p0, rr, k, further); ct = S.encrypt(p0, fixed); S.decrypt(ct, kr)
+            kri = S.resample(p0, rr, k, further, inplace=True); S.decrypt(ct, kri)
+            if further and "f" in pat:
+                # a key resampled in place must still delegate: fix one of its free slots and decrypt
+                i0 = pat.index("f"); cp = pat[:i0] + "x" + pat[i0 + 1:]
+                kq = S.key("wk_qualify", p0, kri, fixed + [(i0, vals[i0], False)]); fx = sorted(fixed + [(i0, vals[i0], False)])
+                ctq = S.encrypt(p0, fx); S.decrypt(ctq, kq)
     # signatures
     for (k, pat) in klist[: (4 if tier != "thorough" else 20)]:
         fixed = [(i, vals[i], False) for i, ch in enumerate(pat) if ch == "x"]
@@ -843,7 +849,7 @@ def gen_wkdibe(rng, n, tier):
         if msg + R < (1 << 256): S.verify(p0, ext, sg, msg + R)
         other = [a for a in ext[1:]] if ext else [(0, 3, False)]
         S.verify(p0, other, sg, msg)
-        for which in ("a0", "a1"): S.verify(p0, ext, S.sigmod(sg, which), msg)
+        for which in ("a0", "a1", "neg", "a0neg", "a1neg"): S.verify(p0, ext, S.sigmod(sg, which), msg)
         rp = S.pre(p0, ext); sg2 = S.sign(p0, k, ext, msg, pre=rp); S.verify(p0, None, sg2, msg, pre=rp); S.verify(p0, ext, sg2, msg)
         # lists whose entries carry the omit-from-keys flag: the flag shapes keys only; sign/verify/precompute/encrypt must
         # still bind every (slot, id) pair of the list
